@@ -130,26 +130,23 @@ pub fn step(ctx: &Ctx, w: &World, ev: &mut Ev) {
                             ev.violation("checkpoint_moved", kind.s(), json!({"checkpoint": p2.checkpoint.to_string(), "cumulative": cum.to_string()}));
                         }
                     }
-                    // settlement of the old position: the trader's net payment must account for the funding owed (cw20 worlds;
-                    // the native funds rule for reversals is the subject of C13)
-                    if w.cfg.coll.is_native() {
-                        return;
-                    }
+                    // settlement of the old position: what the trader pays in total must account for the funding owed.
+                    // total paid = new margin - old equity + fees (fees read from the ledger's inflow to the two pools),
+                    // the same in cw20 and native worlds
                     let realised = pnl(pos.dir, class.q_close, pos.notional).unwrap_or(0);
                     let equity = pos.margin as i128 + realised - f;
-                    let fees = ctx.sent(&actor, &ifund) as i128 + ctx.sent(&actor, &w.addrs.fee_pool) as i128;
-                    let net_to_vault = ctx.sent(&actor, &engine) as i128 - ctx.sent(&engine, &actor) as i128;
+                    let fees = ctx.inflow(&ifund) as i128 + ctx.inflow(&w.addrs.fee_pool) as i128;
+                    let paid_total = -ctx.delta(&actor);
                     let new_margin = post.as_ref().map(|p| p.margin as i128).unwrap_or(0);
                     if equity < 0 {
                         ev.count("reverse_with_negative_equity");
                         return;
                     }
-                    let exp = new_margin - equity;
-                    let _ = fees;
-                    if net_to_vault != exp {
-                        let diff = exp - net_to_vault;
+                    let exp = new_margin - equity + fees;
+                    if paid_total != exp {
+                        let diff = exp - paid_total;
                         let shape = if diff == f { "funding_not_charged" } else if pos.margin as i128 + realised < 0 { "negative_equity_before_funding_paid_as_magnitude" } else { "other" };
-                        ev.violation("charge_exact", &format!("{},{},{}", kind.s(), sign(f), shape), json!({"net_trader_to_vault": net_to_vault.to_string(), "expected": exp.to_string(), "old_margin": pos.margin.to_string(), "realised_pnl": realised.to_string(), "funding_owed": f.to_string(), "new_margin": new_margin.to_string()}));
+                        ev.violation("charge_exact", &format!("{},{},{}", kind.s(), sign(f), shape), json!({"trader_paid_total": paid_total.to_string(), "expected": exp.to_string(), "old_margin": pos.margin.to_string(), "realised_pnl": realised.to_string(), "funding_owed": f.to_string(), "new_margin": new_margin.to_string(), "fees": fees.to_string()}));
                     }
                 }
                 OpenKind::Fresh => {}
